@@ -131,6 +131,14 @@ def check_sec_within(rep, r):
                 break
         if not why and pre and any(pre.rstrip(':') not in t.desc for t in d.tracts):
             why = 'leftover text before/after the Twp/Rge was not re-attached to the description'
+        if not why and pre:
+            # all pieces in reading order: (preamble,) lead, (preamble,) trail
+            p0 = pre.rstrip(':')
+            for t in d.tracts:
+                ip, il, it_ = t.desc.find(p0), t.desc.find(core), t.desc.find(trail)
+                if (place == 3 and not ip < il < it_) or (place == 4 and not il < ip < it_):
+                    why = 'the re-attached pieces are not in reading order'
+                    break
         if not why and not any(f.startswith('sec_within<') for f in d.w_flags):
             why = 'no sec_within warning'
     if why:
